@@ -19,8 +19,15 @@ PROP = {
         "quick": {"gen": [(1500, 30)]},
         "thorough": {"gen": [(15000, 45)]},
         "timeout": 1500,
+    }, {
+        # third run: the transfer model of C02 (`readOp` / `writeOp`) against reads and writes on pipes that were issued with
+        # IO.Dispatched at the limit (script lines ending in `d`): deferred to the poller, never completed inline, and completing with
+        # exactly the result class, count and bytes the model computes for that schedule — which does not depend on the deferral
+        "component": "xfer",
+        "quick": {"gen": [(3000, 6)]},
+        "thorough": {"gen": [(40000, 8)]},
     }],
-    "keys": ["nesting-deeper-than-limit", "dispatch-depth-not-restored", "regular-file-not-deferrable",
+    "keys": ["xfer.*", "nesting-deeper-than-limit", "dispatch-depth-not-restored", "regular-file-not-deferrable",
              "operation-deferred-at-limit-never-completed", "completed-inline-at-the-dispatch-limit",
              "mcast.write-wrong-destination", "mcast.write-lost", "mcast.write-duplicated", "mcast.write-length", "mcast.read-stale-buffer",
              "mcast.read-not-completed", "mcast.read-bytes", "mcast.panic",
